@@ -327,8 +327,13 @@ func (m *machine) runAndCompare(f filter, from, to, chunk uint64, limit uint, pc
 		if next.IsEmpty() {
 			break
 		}
-		if pages > 20000 {
-			c.Violation("tokens-do-not-terminate", "more than 20000 pages for %d expected events (chunk %d, limit %d)", len(want), chunk, limit)
+		// every page makes progress: with a scan limit of l blocks per call a range of n blocks needs at most about n/l pages
+		maxPages := 20000
+		if limit > 0 && to > from {
+			maxPages += int((min(to, head+2) - from) / uint64(limit))
+		}
+		if pages > maxPages {
+			c.Violation("tokens-do-not-terminate", "more than %d pages for %d expected events (chunk %d, limit %d)", maxPages, len(want), chunk, limit)
 		}
 		// tokens travel as strings over RPC
 		var nt blockchain.ContinuationToken
